@@ -42,6 +42,7 @@ type c06Case struct {
 	// 10-entry message queue holds) and the consumer needs 3 ms per message.
 	Interim bool `json:"interim"`
 	Broken    bool `json:"broken"`    // free runs: the glob also matches a file the reader cannot decode (an empty .gz, as log rotation leaves it)
+	OnlyDir   bool `json:"onlydir"`   // nothing the glob matches can be read (a directory): no file, no line - the run must end with an empty result
 	NoFinalNL bool `json:"nofinalnl"` // every second file ends without a newline (its last line still counts)
 }
 
@@ -204,6 +205,9 @@ func c06Run(c c06Case, base string) (res c06Result) {
 		os.WriteFile(p, []byte(content), 0644)
 		w.fileOf[p] = f
 		res.Total += c.Lines[f-1]
+	}
+	if c.OnlyDir {
+		os.MkdirAll(filepath.Join(dir, "archive.log"), 0755)
 	}
 	if c.Broken && !c.Interim {
 		os.WriteFile(filepath.Join(dir, "f00.log.gz"), []byte{}, 0644)
